@@ -96,6 +96,17 @@ impl Bx {
                traced_names=["boxed", "arced"]))
     c.append(F("lp", "#[TRACE]\npub fn lp(xs: &[u32]) -> Option<u32> { HERE for (i, x) in xs.iter().enumerate() { if *x == 0 { rt::log(format!(\"zero at {i}\")); return None; } if *x > 100 { break; } } let s: u32 = xs.iter().sum(); Some(s) }",
                [("[1,2]", 'format!("{:?}", M::lp(&[1, 2]))'), ("[1,0]", 'format!("{:?}", M::lp(&[1, 0]))'), ("[]", 'format!("{:?}", M::lp(&[]))')]))
+    c.append(F("d1", "#[TRACE]\npub fn d1(x: u32) -> u32 { HERE x + 1 }", [("4", 'format!("{:?}", M::d1(4))')], attr="short_name = false"))
+    c.append(F("d2", "#[TRACE]\npub async fn d2(x: u32) -> u32 { HERE rt::Yield(1).await; x + 2 }", [("4", 'format!("{:?}", rt::block_on(M::d2(4)))')], is_async=True, attr="short_name = false, enter_on_poll = false"))
+    c.append(F("d3", "#[TRACE]\npub fn d3(x: u32) -> u32 { HERE x + 3 }", [("4", 'format!("{:?}", M::d3(4))')], attr='name = "d3-name", short_name = false', lit="d3-name"))
+    c.append(F("ob", "#[TRACE]\npub fn ob(o: rt::Obs, x: u32) -> u32 { HERE rt::log(\"ob\"); x + o.0 }",
+               [("5,1", 'format!("{:?}", M::ob(o.clone(), x))')],
+               attr='properties = { "o": "{o}", "od": "<{o:?}>", "x": "{x}" }', props=[("o", 'format!("{o}")'), ("od", 'format!("<{o:?}>")'), ("x", 'format!("{x}")')],
+               prelude={"5,1": 'let o = rt::Obs(5); let x = 1u32;'}))
+    c.append(F("oa", "#[TRACE]\npub async fn oa(o: rt::Obs, x: u32) -> u32 { HERE rt::Yield(1).await; x * o.0 }",
+               [("3,2", 'format!("{:?}", rt::block_on(M::oa(o.clone(), x)))')], is_async=True,
+               attr='properties = { "o": "o={o}" }', props=[("o", 'format!("o={o}")')],
+               prelude={"3,2": 'let o = rt::Obs(3); let x = 2u32;'}))
     # ---- async ----
     c.append(F("a1", "#[TRACE]\npub async fn a1(x: u32) -> u32 { HERE rt::log(\"a\"); rt::Yield(2).await; rt::log(\"b\"); x + 1 }",
                [(str(x), 'format!("{:?}", rt::block_on(M::a1(%du32)))' % x) for x in (0, 9)], is_async=True))
@@ -198,8 +209,20 @@ def gen_function(r, i):
         attr = 'name = "%s"' % nm
         lit = nm.replace("\\t", "\t")
     elif mode == 1:
-        attr = "short_name = true"
-        lit = name
+        # options written out, including with their default values
+        variant = r.randint(0, 3)
+        if variant == 0:
+            attr = "short_name = true"
+            lit = name
+        elif variant == 1:
+            attr = "short_name = false"
+            lit = None
+        elif variant == 2:
+            attr = "enter_on_poll = false" if is_async else "short_name = false"
+            lit = None
+        else:
+            attr = 'name = "sn-%d", short_name = false' % i
+            lit = "sn-%d" % i
     elif mode == 2:
         # property values from a small grammar of format-string pieces: text, escaped braces,
         # placeholders over the arguments; the expected value is format! of the same literal
